@@ -150,6 +150,12 @@ def main(argv=None):
     # ---- replay mode
     if a.replay:
         out = os.path.join(work, "replay.json")
+        try:
+            with open(a.replay) as fp:
+                if json.load(fp).get("python_optimize"):
+                    env["PYTHONOPTIMIZE"] = "1"  # the case was found under `python -O`: replay it the same way
+        except (OSError, ValueError):
+            pass
         r = subprocess.run([PY, "-m", "vlib.worker", "--prop", prop, "--out", out, "--tier", a.tier,
                             "--replay", os.path.abspath(a.replay)], env=env, cwd=VERIF_DIR,
                            capture_output=True, text=True)
@@ -238,6 +244,10 @@ def main(argv=None):
                     cmd += ["--max-examples", str(a.max_examples)]
                 jenv = base_env(s["threads"])
                 jenv["VERIF_CASELOG"] = out + ".cases.jsonl"
+                # interpreter environment: the last shard of a multi-shard sub-check runs under `python -O` (asserts
+                # stripped); results must not depend on the optimisation flag
+                if s["shards"] >= 2 and k == s["shards"] - 1:
+                    jenv["PYTHONOPTIMIZE"] = "1"
                 jobs.append({"sub": s["name"], "out": out, "cmd": cmd, "env": jenv,
                              "cost": min(ncpu, s["threads"]), "caselog": out + ".cases.jsonl", "shard": k})
     results = run_jobs(jobs, ncpu, log)
@@ -301,7 +311,7 @@ def main(argv=None):
                         with open(rr["path"]) as fp:
                             cdoc = json.load(fp)
                         violations.append((rr["subcheck"], rr["failure"]["sig"], rr["failure"]["msg"], cdoc["case"],
-                                           rr["path"]))
+                                           rr["path"], False))
             continue
         name = res["subcheck"]
         ps = per_sub.setdefault(name, {"evaluations": 0, "distinct_nontrivial": 0, "classes": {},
@@ -323,7 +333,10 @@ def main(argv=None):
                 if len([s for s in samples if s["subcheck"] == name]) < 2:
                     samples.append({"subcheck": name, "case": c})
         for v in res.get("violations", []):
-            violations.append((name, v["sig"], v["msg"], v["case"], None))
+            opt = job["env"].get("PYTHONOPTIMIZE") == "1"
+            violations.append((name, v["sig"], v["msg"] + (" [found under python -O]" if opt else ""), v["case"], None, opt))
+        if job["env"].get("PYTHONOPTIMIZE") == "1":
+            classes[f"{name}.shards_under_python_-O"] = classes.get(f"{name}.shards_under_python_-O", 0) + 1
     for name, ps in per_sub.items():
         ps["distinct_nontrivial"] = len(ps.pop("_nt"))
 
@@ -333,7 +346,7 @@ def main(argv=None):
     out_lines = []
     nviol = 0
     known_hashes = {case_hash(e["pinned_case"]): e for e in known}
-    for name, sig, msg, case, path in violations:
+    for name, sig, msg, case, path, opt in violations:
         key = (name, sig)
         if key in seen:
             continue
@@ -344,7 +357,7 @@ def main(argv=None):
         if path is None:
             path = os.path.join(REPLAY_ROOT, prop, f"{name}-{hashlib.sha1(sig.encode()).hexdigest()[:8]}.json")
             dump_json({"property": prop, "subcheck": name, "sig": sig, "msg": msg[:4000], "case": case,
-                       "seed": verif_seed, "tier": a.tier}, path)
+                       "seed": verif_seed, "tier": a.tier, "python_optimize": 1 if opt else 0}, path)
         out_lines.append(f"VIOLATION property={prop} replay={os.path.relpath(path, VERIF_DIR)}")
         out_lines.append(f"  [{name}] {sig}: {msg[:600]}")
         rc = 1
